@@ -15,6 +15,7 @@ import (
 	"os"
 	"runtime"
 	"sort"
+	"strconv"
 	"sync"
 	"time"
 
@@ -28,29 +29,41 @@ var (
 
 func main() {
 	for i, a := range os.Args {
-		if (a == "-c05-child" || a == "--c05-child") && i+1 < len(os.Args) {
+		if (a == "-c05-child" || a == "--c05-child") && i+2 < len(os.Args) {
+			w, err := strconv.Atoi(os.Args[i+2])
+			if err != nil {
+				ev.Fatal("child: bad lattice size %q", os.Args[i+2])
+			}
+			wide = w
 			childMain(os.Args[i+1])
 			return
 		}
 	}
 	r := ev.Start("C05", "exploration")
+	if r.Thorough() {
+		wide = 65536
+	}
 	if r.Replay != "" {
 		ev.Fatal("replay: re-run ./run C05 %s; the violation detail names the key, shard count and placements (file %s)", r.Tier, r.Replay)
 	}
 	cov := ev.Coverage{}
-	var final []*table
 	if *flagOnly == "" || *flagOnly == "direct" || *flagOnly == "proc" {
-		final = runDirect(r, cov, *flagOnly == "proc")
+		runDirect(r, cov, *flagOnly == "proc")
 	}
 	if *flagOnly == "" || *flagOnly == "proc" {
-		runProc(r, cov, final)
+		runProc(r, cov)
 	}
 	if *flagOnly == "" || *flagOnly == "e2e" {
 		runE2E(r, cov)
 	}
-	cov["rule"] = "direct: every key of every key set (8/16-bit ints, bool, strings/byte slices up to length 5 over 3 letters: exhaustive; wider ints and floats: fixed lattices incl. extremes, powers of two ±1, ±0, ±Inf, denormals; 2-column prefixes: cross products) × batch size {1,3,128} × view offset {0,1,5} × every row position × shard counts 1..8, Frame.Hash and defaultPartitioner; a case is non-trivial when the key was observed in ≥2 different placements; e2e: operator × key type × producer shard counts × layout × executor; proc: tables of 3 child processes compared with the parent's"
+	cov["rule"] = "direct: every key of every key set (8/16-bit ints, bool, strings/byte slices up to length 5 over 3 letters: exhaustive; wider ints and floats: fixed lattices (quick 4096, thorough 65536 points) incl. extremes, powers of two ±1, ±0, ±Inf, denormals; 2-column prefixes: cross products) × batch size {1,3,128} × view offset {0,1,5} × every row position × shard counts 1..8, Frame.Hash and defaultPartitioner; a case is non-trivial when the key was observed in ≥2 different placements; e2e: operator × key type × producer shard counts × layout × executor; proc: tables of 3 child processes compared with the parent's"
 	r.Finish(cov)
 }
+
+// wide is the number of lattice points for the integer types wider than 16
+// bits and for the float types (quick: 4096, thorough: 65536). The 8- and 16-bit
+// integer types are always exhaustive.
+var wide = 4096
 
 type job struct {
 	set    *keySet
@@ -60,7 +73,7 @@ type job struct {
 
 func runDirect(r *ev.Run, cov ev.Coverage, cheap bool) []*table {
 	t0 := time.Now()
-	sets := keySets(65536)
+	sets := keySets(wide)
 	var jobs []job
 	for _, ks := range sets {
 		for _, B := range batchSizes {
@@ -161,6 +174,7 @@ func runDirect(r *ev.Run, cov ev.Coverage, cheap bool) []*table {
 	cov["direct_keys_in_exhaustive_sets"] = keysExhaustive
 	cov["direct_key_sets"] = perSet
 	cov["direct_configurations"] = len(jobs)
+	cov["direct_lattice_points_per_wide_type"] = wide
 	cov["direct_(keyset,nshard)_cells_using_all_shards"] = fmt.Sprintf("%d of %d (key sets with >=64 keys)", fullUse, cells)
 	cov["direct_wall_s"] = time.Since(t0).Seconds()
 	if len(final) > 0 {
@@ -190,13 +204,13 @@ func reportTable(r *ev.Run, t *table, part string) {
 		}
 		switch m.kind {
 		case "hash":
-			r.Violate(fmt.Sprintf("C05/%s/%s/hash-not-a-function-of-the-key%s", part, ks.name, rep),
+			r.Violate(fmt.Sprintf("C05/%s/%s/hash-not-a-function-of-the-key%s", part, ks.class(), rep),
 				fmt.Sprintf("Frame.Hash of key %s (%s) is %d at [%s] but %d for %s at [%s]", keyA, ks.name, m.a, m.whereA, m.b, keyB, m.whereB), detail)
 		case "shard":
-			r.Violate(fmt.Sprintf("C05/%s/%s/shard-not-a-function-of-key-and-nshard%s", part, ks.name, rep),
+			r.Violate(fmt.Sprintf("C05/%s/%s/shard-not-a-function-of-key-and-nshard%s", part, ks.class(), rep),
 				fmt.Sprintf("default partitioner, %d shards: key %s (%s) goes to shard %d at [%s] but %s goes to shard %d at [%s]", m.nshard, keyA, ks.name, m.a, m.whereA, keyB, m.b, m.whereB), detail)
 		case "range":
-			r.Violate(fmt.Sprintf("C05/%s/%s/shard-out-of-range", part, ks.name),
+			r.Violate(fmt.Sprintf("C05/%s/%s/shard-out-of-range", part, ks.class()),
 				fmt.Sprintf("default partitioner, %d shards: key %s (%s) assigned shard %d at [%s]", m.nshard, keyA, ks.name, m.a, m.whereA), detail)
 		}
 	}
